@@ -475,7 +475,7 @@ func Prop() *fw.Property {
 		},
 		Families:        families,
 		Customs:         customs,
-		KnownPredicates: knownPredicates(),
+		KnownPredicates: withExtra(knownPredicates()),
 	}
 }
 
@@ -569,3 +569,30 @@ func StateIsFirst(i int64, p *canvas.Path) bool {
 
 // Names renders a history.
 func Names(calls []Call) string { return names(calls) }
+
+// inputPredicates are matchers that look at the history (the input) of a violation only.
+func init() {
+	extraPredicates["receiver-has-open-subpath"] = func(v *fw.Violation) bool {
+		calls, ok := parseNames(v.Case)
+		if !ok {
+			return false
+		}
+		defer func() { recover() }()
+		p := BuildReal(calls)
+		for _, sp := range p.Split() {
+			if !sp.Closed() {
+				return true
+			}
+		}
+		return false
+	}
+}
+
+var extraPredicates = map[string]func(v *fw.Violation) bool{}
+
+func withExtra(m map[string]func(v *fw.Violation) bool) map[string]func(v *fw.Violation) bool {
+	for k, f := range extraPredicates {
+		m[k] = f
+	}
+	return m
+}
